@@ -36,6 +36,15 @@ class LibMap:
             return e
         return em.addr_of_expr_string(e, base)
 
+    def scalar_class_of(self, em, n):
+        try:
+            t = peel(em.tm, em.ptype(n)) if False else strip_ref(em.tm.resolve(em.ptype(n)))
+        except Unsupported:
+            return None
+        if t.kind == "named" and not t.args and t.last in em.tm.scalar_classes:
+            return em.tm.scalar_classes[t.last]
+        return None
+
     def mapped(self, em, n):
         try:
             return em.ctype(n)
@@ -76,6 +85,11 @@ class LibMap:
                     return "%s = %s" % (em.paren(em.E(a0)), em.E(src))
                 return "(%s.has = 1, %s.value = %s)" % (em.paren(em.E(a0)), em.paren(em.E(a0)), em.E(src))
             return None
+        if ct0.startswith("struct vf_arr_") and op == "[]":
+            return "%s.a[%s]" % (em.paren(em.E(a0)), em.E(args[1]))
+        sc = self.scalar_class_of(em, a0)
+        if sc is not None and op not in sc.get("ops", []):
+            return None  # wrapper class mapped to a scalar: only the operators declared equivalent are builtin
         if ct0 == "struct vf_mt19937" and op == "()":
             # the only random source of the xbt generator: assumed callee (contract: value in [0, 2^w-1])
             em.note_proto("vf_mt19937_next", "unsigned long", ["struct vf_mt19937*"], "std::mt19937::operator()")
